@@ -152,6 +152,18 @@ def proof_gate(prop):
     res["discharged"] = len(names)  # every statement in the file was accepted by coqc
     res["print_assumptions"] = n_print
     res["closed"] = closed
+    if os.environ.get("VERIF_CURRENT_TIER") == "thorough":
+        # independent re-check of the property file and everything it depends on
+        lock = _lock()
+        try:
+            rc2, o2 = sh("timeout 1500 coqchk -silent -o -Q . Memento Memento.Props.%s 2>&1" % prop, cwd=COQ, timeout=1600)
+        finally:
+            lock.close()
+        m2 = re.search(r"\* Axioms:\s*(.*?)\n\s*\n", o2, re.S)
+        res["coqchk"] = {"exit": rc2, "axioms": " ".join(m2.group(1).split()) if m2 else "?"}
+        if rc2 != 0 or not m2 or "<none>" not in m2.group(1):
+            res["ok"] = False
+            res["broken"].append("coqchk: exit %d, axioms: %s" % (rc2, res["coqchk"]["axioms"]))
     notallowed = [a for a in res["axioms"] if a.split(".")[-1] not in {x.split(".")[-1] for x in ALLOWED_AXIOMS}]
     if notallowed:
         res["ok"] = False
@@ -309,6 +321,8 @@ class Report:
         cov["discharged"] = gate["discharged"] if gate["ok"] else 0
         cov["theorems"] = gate.get("theorems", [])
         cov["print_assumptions"] = {"closed_under_global_context": gate.get("closed", 0), "axioms": gate["axioms"]}
+        if "coqchk" in gate:
+            cov["coqchk"] = gate["coqchk"]
         cov["checker_cmd"] = "make -C coq (full .vo build) && coqc -Q coq Memento coq/Props/%s.v ; Print Assumptions under every theorem; grep gate" % self.prop
         cov["trusted_base"] = TRUSTED_BASE
         cov["samples"] = self.samples[:6] if self.samples else [{"note": "no generated cases"}]
